@@ -10,6 +10,7 @@ import (
 
 	"github.com/ozontech/file.d/logger"
 	"github.com/ozontech/file.d/pipeline"
+	"github.com/ozontech/file.d/verifhook"
 	"github.com/ozontech/file.d/xtime"
 	"go.uber.org/atomic"
 )
@@ -254,6 +255,7 @@ func (o *offsetDB) save(jobs map[pipeline.SourceID]*Job, mu *sync.RWMutex) {
 			logger.Errorf("can't close offsets file: %s, %s", o.tmpOffsetsFile, err.Error())
 		}
 	}()
+	verifhook.Point("offsets.afterOpen")
 
 	o.buf = o.buf[:0]
 	for _, job := range snapshot {
@@ -291,16 +293,20 @@ func (o *offsetDB) save(jobs map[pipeline.SourceID]*Job, mu *sync.RWMutex) {
 	}
 
 	_, err = file.Write(o.buf)
+	err = verifhook.Err("offsets.write", err)
 	if err != nil {
 		logger.Errorf("can't write offsets file %s, %s", o.tmpOffsetsFile, err.Error())
 	}
 
 	err = file.Sync()
+	err = verifhook.Err("offsets.sync", err)
 	if err != nil {
 		logger.Errorf("can't sync offsets file %s, %s", o.tmpOffsetsFile, err.Error())
 	}
 
+	verifhook.Point("offsets.beforeRename")
 	err = os.Rename(string(tmpWithRandom), o.curOffsetsFile)
+	verifhook.Point("offsets.afterRename")
 	if err != nil {
 		logger.Errorf("failed renaming temporary offsets file to current: %s", err.Error())
 	}
